@@ -48,5 +48,15 @@ Definition d4_ok (S tolS : Z) (shift : bool) (pts : list pt) (vs : list pt) (T :
 Definition dual_ok (S tolS : Z) (shift : bool) (pts : list pt) (vs : list pt) (rv : list (Z * Z)) (T : list tri) : bool :=
   (length T =? length vs)%nat && d1_ok S vs rv T && d2_ok S vs rv T && d3_ok S vs T && d4_ok S tolS shift pts vs T.
 
-(* the certificate read off the record for the returned lattice: triangle of the n-th kept vertex *)
-Definition cert_of (T : list tri) (order : list nat) : list (tri * box) := map (fun o => (nth o T tri0, box0)) order.
+(* the certificate read off the record for the returned lattice: triangle of the n-th kept vertex, with a bounding-box
+   hint for its circumdisc ([B], one per Voronoi vertex; used by check_delaunay only, where it is verified) *)
+Definition cert_of (T : list tri) (B : list box) (order : list nat) : list (tri * box) :=
+  map (fun o => (nth o T tri0, nth o B box0)) order.
+
+(* what the harness evaluates: [dual_ok] for the record after the optional shift ([pts]: the N seeds on the scale of
+   the shifted vertices, i.e. multiplied by 3 when shift_vertices) *)
+Definition post_dual_hyp (shift : bool) (S tolS : Z) (points pts : list pt) (v : vor) (T : list tri) : option bool :=
+  match shifted_vertices shift S points v with
+  | Err _ => None
+  | Ok (S', vs) => Some (dual_ok S' tolS shift pts vs (ridge_vertices v) T)
+  end.
